@@ -276,30 +276,46 @@ def _readback(ctx, rng, case, post, ds, chains, feats):
     who = ids[int(rng.integers(len(ids)))]
     i_who = ids.index(who)
     n = 6
+    # one predictive model object serves several individuals one after the
+    # other (a figure per individual, then back to the first one)
+    sequence = [who]
+    if len(ids) > 1:
+        other = [i_ for i_ in ids if i_ != who]
+        sequence += [other[int(rng.integers(len(other)))], who]
     try:
         ppm = chi.PosteriorPredictiveModel(pm, ds)
-        df, calls = c15._tap(lambda: ppm.sample(
-            [1.0], n_samples=n, individual=who,
-            seed=int(rng.integers(1000))))
     except Exception as e:      # noqa
-        # parameters may be negative for a predictive draw (unique values
-        # are large positive numbers, so this is unexpected)
         ctx.violation_exc('posterior_predictive_readback_raises', e,
                           {'case': feats}, feats)
         return
-    cols = [i_who * case.n_dim + j for j in range(case.n_dim)]
-    for vec, _ in calls:
-        ctx.count('readback_draws')
-        c = set(int(v) // 1000000 for v in vec)
-        d = set(int(v) % 1000000 // 1000 for v in vec)
-        k = [int(v) % 1000 for v in vec]
-        if len(c) != 1 or len(d) != 1 or k != cols:
-            ctx.violation('readback_selects_matching_columns',
-                          'posterior_predictive_wrong_columns',
-                          {'chain': sorted(c), 'draw': sorted(d),
-                           'columns': k, 'expected_columns': cols,
-                           'individual': who}, feats)
+    for step, cur in enumerate(sequence):
+        try:
+            df, calls = c15._tap(lambda: ppm.sample(
+                [1.0], n_samples=n, individual=cur,
+                seed=int(rng.integers(1000))))
+        except Exception as e:      # noqa
+            # parameters may be negative for a predictive draw (unique
+            # values are large positive numbers, so this is unexpected)
+            ctx.violation_exc('posterior_predictive_readback_raises', e,
+                              {'case': feats}, feats)
             return
+        i_cur = ids.index(cur)
+        cols = [i_cur * case.n_dim + j for j in range(case.n_dim)]
+        for vec, _ in calls:
+            ctx.count('readback_draws')
+            c = set(int(v) // 1000000 for v in vec)
+            d = set(int(v) % 1000000 // 1000 for v in vec)
+            k = [int(v) % 1000 for v in vec]
+            if len(c) != 1 or len(d) != 1 or k != cols:
+                ctx.violation('readback_selects_matching_columns',
+                              'posterior_predictive_wrong_columns',
+                              {'chain': sorted(c), 'draw': sorted(d),
+                               'columns': k, 'expected_columns': cols,
+                               'individual': cur,
+                               'individuals sampled so far':
+                               sequence[:step + 1]}, feats)
+                return
+    cols = [i_who * case.n_dim + j for j in range(case.n_dim)]
     # pointwise log-likelihood of that individual
     ll = case.lls[i_who]
     # unique values are no sensible parameters: use a second dataset with
